@@ -52,21 +52,21 @@ func (t *Transpiler) setAggregateDimensionOfSubquery(dims influxql.Dimensions, s
 		t.generateDimension(statement, grouping...)
 		return
 	}
-	_, dimRefs := dims.Normalize()
-	if len(dimRefs) == 0 {
-		var isGroupByStar bool
-		for i := range dims {
-			expr, ok := dims[i].Expr.(*influxql.Wildcard)
-			if ok && (expr.Type == influxql.ILLEGAL || expr.Type == influxql.TAG) {
-				isGroupByStar = true
-				break
-			}
-		}
-		if isGroupByStar {
+	// A `GROUP BY *` among the dimensions (the operand of a binary operation that keeps all of its
+	// labels, e.g. the many side of group_left) decides, whatever the other operand is grouped by:
+	// the named dimensions alone made `min without (inst) (m > on (job) group_left () min by (job) (m))`
+	// group by job only.
+	for i := range dims {
+		expr, ok := dims[i].Expr.(*influxql.Wildcard)
+		if ok && (expr.Type == influxql.ILLEGAL || expr.Type == influxql.TAG) {
 			// exclude grouping from full set to generate dimension
 			statement.Without = true
 			t.generateDimension(statement, grouping...)
+			return
 		}
+	}
+	_, dimRefs := dims.Normalize()
+	if len(dimRefs) == 0 {
 		return
 	}
 	sort.Strings(dimRefs)
